@@ -125,7 +125,7 @@ def run(ck):
     xwin = os.path.join(ck.work, "xwitness.json")
     json.dump([{"Name": n, "Caps": caps, "Progs": progs, "Sched": sc} for n, caps, progs, sc, _ in XWITNESSES], open(xwin, "w"))
     xoutp = os.path.join(ck.work, "c10sel.jsonl")
-    nsel = {"quick": 1200, "thorough": 20000}[ck.tier]
+    nsel = {"quick": 1000, "thorough": 20000}[ck.tier]
     rc, log = ccmod.go_test(ck, d, "rt", {"VERIF_OUT": out, "VERIF_N": str(nrand), "VERIF_IN": win,
                                            "VERIF_OUT_SEL": xoutp, "VERIF_N_SEL": str(nsel), "VERIF_IN_SEL": xwin},
                             timeout=240 if ck.tier == "quick" else 1700)
@@ -216,5 +216,8 @@ def run(ck):
                       "scheduler): DFS with state pruning over all interleavings of the systematic configurations (2 threads x <=2 ops, "
                       "3 threads x 1 op in the quick tier; 2x3, 2x2 with try-ops, 3x1 with try-ops, 3x2 in the thorough tier; capacity 0,1,2; "
                       "spurious wake-ups <=1) + random schedules of random configurations (2-4 threads, 1-3 ops, capacity 0-2); each executed "
-                      "schedule is one case for the model (masks after every step, results, final fields) and for the linearizability oracle")
+                      "schedule is one case for the model (masks after every step, results, final fields) and for the linearizability oracle. "
+                      "Select: every 2-case Select / TrySelect over the channel sets {0},{1},{0,0},{0,1} (thorough: also {2},{1,0},{1,1}) against every single and every pair of plain partners "
+                      "(send/recv/close), and mirrored pairs of selects: the first 6 DFS paths per configuration in the quick tier (400 in the thorough tier) + random schedules of random "
+                      "select configurations (2-3 threads, 1-2 operations, 1-2 channels)")
     return ck.finish()
